@@ -5,6 +5,8 @@ import (
 	"fmt"
 	"io"
 	"log"
+	"math"
+	"strconv"
 	"time"
 
 	"github.com/valyala/fastjson"
@@ -63,6 +65,10 @@ func ValueToJson(arena *fastjson.Arena, t octosql.Type, value octosql.Value) *fa
 	case octosql.TypeIDInt:
 		return arena.NewNumberInt(int(value.Int))
 	case octosql.TypeIDFloat:
+		if math.IsNaN(value.Float) || math.IsInf(value.Float, 0) {
+			// JSON has no literal for these; print them the way strconv reads them back.
+			return arena.NewString(strconv.FormatFloat(value.Float, 'g', -1, 64))
+		}
 		return arena.NewNumberFloat64(value.Float)
 	case octosql.TypeIDBoolean:
 		if value.Boolean {
